@@ -363,10 +363,14 @@ func (c *Clients) runHTTP(cc *plan.ClientConn, cr *ConnRecord, srv plan.ServerSp
 	src := netip.MustParseAddr(cc.Src)
 	network, target := targetFor(srv.Listen, src)
 	ndial := 0
+	var dmu sync.Mutex
 	tr := &http.Transport{
 		DialContext: func(ctx context.Context, _, _ string) (net.Conn, error) {
+			dmu.Lock()
 			ndial++
-			return c.W.PeerDial(ctx, fmt.Sprintf("C%d.%d", cc.Idx, ndial), src, network, target)
+			n := ndial
+			dmu.Unlock()
+			return c.W.PeerDial(ctx, fmt.Sprintf("C%d.%d", cc.Idx, n), src, network, target)
 		},
 		ForceAttemptHTTP2:   cc.HTTP2,
 		MaxIdleConnsPerHost: 4,
